@@ -1,9 +1,14 @@
 package service
 
 import (
+	"bytes"
+	"encoding/json"
+	"errors"
+	"io/ioutil"
 	"net/http"
 	"net/url"
 
+	"github.com/cnotch/apirouter"
 	"github.com/cnotch/ipchub/media"
 	"github.com/cnotch/ipchub/provider/auth"
 	"github.com/cnotch/ipchub/provider/route"
@@ -49,5 +54,40 @@ func VerifManagementAPI() {
 	if who != 2 {
 		symapi.Assert(w.code == http.StatusUnauthorized || w.code == http.StatusForbidden, "refused-with-401-or-403")
 	}
+	symapi.Reach("end")
+}
+
+// In VerifSaveUserAPI (*json.Decoder).Decode is replaced by this (encoding/json works by
+// reflection): the request body "decodes" to the user the harness prepared.
+var verifBodyUser *auth.User
+
+func verifJSONDecodeStub(dec *json.Decoder, v interface{}) error {
+	if u, ok := v.(*auth.User); ok && verifBodyUser != nil {
+		*u = *verifBodyUser
+		return nil
+	}
+	return errors.New("unexpected JSON target")
+}
+
+// VerifSaveUserAPI (C16 / C11): rights follow what the administrator last saved through the
+// API: a right saved as empty permits nothing afterwards (except an administrator's default),
+// a right saved as a pattern permits exactly what the pattern says.
+func VerifSaveUserAPI() {
+	auth.Save(&auth.User{Name: "bob", Password: "pb", PushAccess: "/up/+", PullAccess: "/b/+"}, true)
+	svc := &Service{tokens: new(auth.TokenManager)}
+	push := []string{"", "/up/+", "/other/*"}[symapi.Choose("pushSaved", 3)]
+	pull := []string{"", "/b/+", "*"}[symapi.Choose("pullSaved", 3)]
+	admin := symapi.Bool("admin")
+	verifBodyUser = &auth.User{Name: "bob", Admin: admin, PushAccess: push, PullAccess: pull}
+	w := &verifRW{}
+	body, _ := json.Marshal(verifBodyUser) // a native replay decodes this for real
+	svc.onSaveUser(w, &http.Request{Method: "POST", URL: &url.URL{Path: "/api/v1/users"}, Header: http.Header{}, Body: ioutil.NopCloser(bytes.NewReader(body))}, apirouter.Params{})
+	symapi.Assert(w.code == http.StatusOK || w.code == 0, "save-answers-200")
+	u := auth.Get("bob")
+	symapi.Assert(u != nil, "user-exists")
+	wantPush := push == "/up/+" || (admin && push == "")
+	wantPull := pull == "/b/+" || pull == "*" || (admin && pull == "")
+	symapi.Assert(u.ValidatePermission("/up/cam", auth.PushRight) == wantPush, "push-right-as-last-saved-through-the-api")
+	symapi.Assert(u.ValidatePermission("/b/x", auth.PullRight) == wantPull, "pull-right-as-last-saved-through-the-api")
 	symapi.Reach("end")
 }
